@@ -14,11 +14,13 @@ import Oas3Model.Driver.Enum
 import Oas3Model.Driver.Cache
 import Oas3Model.Driver.Codec
 import Oas3Model.Driver.Compile
+import Oas3Model.Driver.DefaultsDoc
 import Oas3Model.Driver.Discr
 import Oas3Model.Driver.Flags
 import Oas3Model.Driver.Inject
 import Oas3Model.Driver.ReqInterop
 import Oas3Model.Driver.Valid
+import Oas3Model.Driver.ValidSites
 open Lean Oas3.Driver
 
 def allOps : List (String × Handler) := List.flatten [
@@ -37,11 +39,13 @@ def allOps : List (String × Handler) := List.flatten [
   Oas3.Driver.Cache.ops,
   Oas3.Driver.Codec.ops,
   Oas3.Driver.Compile.ops,
+  Oas3.Driver.DefaultsDoc.ops,
   Oas3.Driver.Discr.ops,
   Oas3.Driver.Flags.ops,
   Oas3.Driver.Inject.ops,
   Oas3.Driver.ReqInterop.ops,
   Oas3.Driver.Valid.ops,
+  Oas3.Driver.ValidSites.ops,
   []]
 
 def handleLine (line : String) : String :=
